@@ -391,6 +391,21 @@ def part_report_status(ctx, rep):
                           f"{nrefs} ref statuses written by the server ({len(data)} bytes, {len(frames)} frames), read with rbufsize {rbuf}: {got}", rp)
             if nrefs == 2500 and sideband:
                 ctx.cov["report_status_2500_refs"] = {"bytes": len(data), "outer_frames": len(frames), "largest_frame": max(len(pl or b"") + 4 for (_, pl) in frames)}
+    # the status list as a consumer of the decoder: an empty packet (0004) among the statuses is a line that
+    # says nothing, not the end of the list (only the flush-pkt is)
+    from dulwich.protocol import pkt_line
+    inner = pkt_line(b"unpack ok\n") + pkt_line(b"ok refs/heads/a\n") + pkt_line(b"") + pkt_line(b"ng refs/heads/b nope\n") + pkt_line(None)
+    w = []
+    Protocol(None, w.append).write_sideband(1, inner)
+    for sideband, data in ((True, b"".join(w) + pkt_line(None)), (False, inner)):
+        for style in (1, 2):
+            r = outcome(client_read, data, random_chunks(rng, len(data), style), 7, sideband)
+            n += 1
+            ctx.count()
+            if r != ("ok", {b"refs/heads/a": None, b"refs/heads/b": "nope"}):
+                rep.v("dulwich/client.py:GitClient._handle_receive_pack_tail", "TotalDecoder" if r[0] == "crash" else "RoundTrip",
+                      f"report-status with an empty packet, side-band={sideband} -> {okind(r) if r[0] != 'ok' else 'wrong statuses'}",
+                      f"status list [unpack ok, ok a, <empty packet>, ng b nope, flush]: {r}", {"kind": "none"})
     ctx.validated(n)
     ctx.log(f"report-status: {n} server -> client executions under random partitions")
 
